@@ -284,7 +284,26 @@ def weave_span_backoff():
     return {src: dst}
 
 
-WEAVERS = [weave_span_backoff]  # functions returning {dst_path_in_repo: generated_file}
+def weave_virtual_ticker():
+    """virtual ticker: time.NewTicker(duration) inside triggerBuilder becomes verifNewTicker(t, duration), defined in
+    harness/newrelic/trig.go (a copy of the CURRENT harvest_trigger.go with that one call rewritten is grafted)"""
+    src = os.path.join(DAEMON, "internal", "newrelic", "harvest_trigger.go")
+    try:
+        text = open(src).read()
+    except OSError:
+        return {}
+    new, n = re.subn(r"time\.NewTicker\(duration\)", "verifNewTicker(t, duration)", text)
+    if n != 1:
+        return {}
+    os.makedirs(os.path.join(BUILD, "woven"), exist_ok=True)
+    dst = os.path.join(BUILD, "woven", "harvest_trigger.go")
+    tmp = dst + ".%d" % os.getpid()
+    open(tmp, "w").write(new)
+    os.replace(tmp, dst)
+    return {src: dst}
+
+
+WEAVERS = [weave_span_backoff, weave_virtual_ticker]  # functions returning {dst_path_in_repo: generated_file}
 
 
 def woven_files():
